@@ -3,12 +3,15 @@ package gowp
 import (
 	"fmt"
 	"go/types"
+	"os"
 	"strings"
 
 	"golang.org/x/tools/go/ssa"
 )
 
 const maxInlineDepth = 8
+
+var traceInline = os.Getenv("VERIF_TRACE") != ""
 
 type outcome struct {
 	st   *State
@@ -243,11 +246,24 @@ func (e *Engine) callFunc(st *State, instr ssa.Instruction, fn *ssa.Function, ar
 			return
 		}
 		e.unmodelled(st, name)
-		e.havocAll(st)
+		for _, a := range args {
+			e.escape(st, a)
+		}
+		for _, b := range bind {
+			e.escape(st, b)
+		}
+		e.havocAllKeepPrivate(st)
 		k(st, e.freshResults(st, fn.Name(), fn.Signature))
 		return
 	}
 	// inline
+	if traceInline {
+		fmt.Printf("%sinline %s (paths so far %d)\n", strings.Repeat("  ", len(st.frames)), fn.String(), e.pathCount)
+	}
+	e.inlineCount++
+	if e.inlineCount > 200000 {
+		panic(unsupported{"inlining budget exceeded (path explosion)"})
+	}
 	pre := st.clone()
 	at := st.items
 	outs := e.collectInline(st, fn, args, bind)
@@ -315,8 +331,57 @@ func (e *Engine) callOpaque(st *State, instr ssa.Instruction, call *ssa.CallComm
 		e.emit(st, "nil", e.site(instr, "nilfunc"), not(eq(fv.T, "0")), "called function value is non-nil "+e.posOf(instr.Pos()))
 	}
 	e.unmodelled(st, "funcvalue:"+e.posOf(instr.Pos()))
-	e.havocAll(st)
-	k(st, e.freshResults(st, "fv", sig))
+	for _, a := range args {
+		e.escape(st, a)
+	}
+	e.havocAllKeepPrivate(st)
+	res := e.freshResults(st, "fv", sig)
+	// `fnparam <name> ensures <expr>`: what the verified function assumes
+	// about a function-typed parameter (listed as an assumption)
+	if pn := fnParamName(call.Value); pn != "" && len(st.frames) > 0 && st.frames[0].contract != nil {
+		if cls := st.frames[0].contract.FnParams[pn]; len(cls) > 0 {
+			env := &Env{e: e, st: st, sink: st, names: map[string]*Val{}, callArg: true}
+			if fn0 := st.frames[0].fn; fn0.Pkg != nil {
+				env.pkg = fn0.Pkg.Pkg
+			}
+			for i, a := range args {
+				env.names[fmt.Sprintf("a%d", i)] = a
+			}
+			if res != nil {
+				if res.Tup != nil {
+					for i, r := range res.Tup {
+						env.names[fmt.Sprintf("r%d", i)] = r
+					}
+				} else {
+					env.names["r0"] = res
+				}
+			}
+			for _, cl := range cls {
+				st.assume(e.evalBool(env, cl))
+				e.Assumed["assumed about function parameter "+pn+": "+cl.Text] = true
+			}
+		}
+	}
+	k(st, res)
+}
+
+// fnParamName: the source name of the function-typed parameter (or captured
+// variable) a called function value comes from.
+func fnParamName(v ssa.Value) string {
+	switch x := v.(type) {
+	case *ssa.Parameter:
+		return x.Name()
+	case *ssa.FreeVar:
+		return x.Name()
+	case *ssa.UnOp:
+		switch y := x.X.(type) {
+		case *ssa.FreeVar:
+			return y.Name()
+		case *ssa.Alloc:
+			return y.Comment
+		}
+	}
+	return ""
 }
 
 // callContract: modular call against the callee's contract.
@@ -347,6 +412,12 @@ func (e *Engine) callContract(st *State, instr ssa.Instruction, fn *ssa.Function
 	}
 	for i, rq := range c.Requires {
 		e.emit(st, "pre", fmt.Sprintf("%s#%d", e.site(instr, "pre@"+short), i), e.evalBool(env, rq), "requires of "+short+": "+rq.Text+" "+e.posOf(instr.Pos()))
+	}
+	if heapModifies(c) {
+		// the callee may store its arguments into memory it is allowed to modify
+		for _, a := range args {
+			e.escape(st, a)
+		}
 	}
 	old := st.snapshot()
 	e.applyModifies(st, env, c)
@@ -431,10 +502,17 @@ func (e *Engine) applyModifies(st *State, env *Env, c *Contract) {
 
 func (e *Engine) havocLoc(st *State, env *Env, loc string) {
 	if loc == "*" {
-		e.havocAll(st)
+		// everything reachable by the callee; objects still private to the
+		// verified function (their references were not passed, see
+		// callContract) are out of its reach
+		e.havocAllKeepPrivate(st)
 		return
 	}
 	if loc == "" || loc == "nothing" {
+		return
+	}
+	if strings.HasPrefix(loc, "ghost:") {
+		e.ghostHavoc(st, strings.TrimPrefix(loc, "ghost:"))
 		return
 	}
 	if strings.HasSuffix(loc, "[*]") {
